@@ -22,7 +22,7 @@ def run(seed, prop):
         viol = [re.sub(r"^.*replays/[^/]+/", "", l) for l in lines if l.startswith("VIOLATION")]
         und = [l[:200] for l in lines if l.startswith("UNDECIDED")]
         err = [l[:200] for l in lines if l.startswith("CHECKER-ERROR")]
-        contract = sorted({v for v in viol if v.startswith("mappyfile.")})
+        contract = sorted({v for v in viol if v.startswith(("mappyfile.", "lemma"))})
         seam = sorted({v for v in viol if v.startswith("seam_")})
         table = sorted({v for v in viol if v.startswith("table_")})
         return dict(check=prop, exit=p.returncode, contract_obligations=contract[:12], n_contract=len(contract), tables=table[:8], n_table=len(table),
